@@ -14,6 +14,10 @@ NA = {
 PENDING = "check not built yet in this session (work in progress; see DESIGN.md §4 for the planned rules)"
 
 CHECKS = {
+    "C05": dict(
+        technique="must-store summaries for the invalidation protocol + path-by-path abstract evaluation (linear forms over SSA atoms) of the seven CTR encrypt loops + call-site constant sets for lane advance/stagger + definite-initialisation of the counter load",
+        text="Decides the buffering protocol that makes the output independent of how the data is cut into calls, for all 7 back ends, with BATCH taken from sizeof(ecounter): every setter and init leaves the buffer exhausted on all success paths; each refill encrypts counter->ecounter under the context's own schedule, guarded by offset >= BATCH, and advances every lane exactly once by BATCH/BLOCK; set_counter defines all counter bytes, places the caller's bytes at the end of the block (left zero padding) and staggers lane i by i; on every path through the encrypt loop the keystream bytes [a,a+n) used are followed by offset := a+n with n bounded by the bytes left, a whole batch is only consumed under size >= BATCH, out/in/size cursors move by exactly the bytes consumed, out and in share the same offset; increment helpers walk all block bytes with a fixed trip count. NOT decided: that the buffered bytes equal E(c+i) (value fact).",
+        note=NOTE + " Member-extent assumption: a helper handed the address of a struct member writes only inside that member (its own accesses are bounded by C09)."),
     "C08": dict(
         technique="interprocedural information-flow (security-type / taint) analysis over LLVM IR, source-shaped and -O3, with vtable-resolved calls and def-use witnesses",
         text="Every function of the library is typed with public/secret levels: all memory is secret except an explicit table of public fields (rounds, offset, parallel_size, pointer fields), constant tables and locals that only receive public values. No conditional branch, switch, select, load/store address, vector lane index, indirect callee, memcpy/memset/calloc length, div/rem operand or returned status depends on a secret, and no secret is stored into a public field - in the source-shaped IR and in the IR at the shipped optimisation level (and in all 32 switch configurations in the thorough tier). This is a proof-style argument over all secret values at once; tests observe bytes only and cannot see timing.",
